@@ -18,4 +18,9 @@ def WellFormedFrame (f : List Nat) : Prop := wellFormedB f = true
 
 instance : Decidable (WellFormedFrame f) := by unfold WellFormedFrame; infer_instance
 
+/-- C03: a command frame carries this session id (bytes 8-11), this timestamp (bytes 24-27) and this
+    device id (bytes 40-42) -/
+def carries (f sid ts did : List Nat) : Bool :=
+  (slice f 8 12 == sid) && (slice f 24 28 == ts) && (slice f 40 43 == did) && sid.length == 4 && ts.length == 4 && did.length == 3
+
 end Spec
